@@ -50,8 +50,9 @@ ImplRetryable(p, o) ==
 ImplBudget(p) == IF "BudgetOffByOne" \in Defects THEN Budget(p) + 1
                  ELSE IF "BudgetIsNumRetries" \in Defects THEN p.n ELSE Budget(p)
 
-VARIABLES pol, script, att, rem, st, last, hosts, reply
-vars == <<pol, script, att, rem, st, last, hosts, reply>>
+VARIABLES pol, script, att, rem, st, last, hosts, reply,
+          applied   \* how often the route's request-side actions have been applied to the request the attempts carry
+vars == <<pol, script, att, rem, st, last, hosts, reply, applied>>
 
 NHosts == 2
 Outcome(i) == IF i <= Len(script) THEN script[i] ELSE script[Len(script)]
@@ -61,7 +62,7 @@ Outcome(i) == IF i <= Len(script) THEN script[i] ELSE script[Len(script)]
 Scripts(p) == UNION { { s \in [1..n -> Outcomes] : \A i \in 1..(n - 1) : Retryable(p, s[i]) } : n \in 1..MaxLen }
 
 Init == /\ pol \in Policies /\ script \in Scripts(pol)
-        /\ att = 0 /\ rem = ImplBudget(pol) /\ st = "idle" /\ last = "none" /\ hosts = <<>> /\ reply = 0
+        /\ att = 0 /\ rem = ImplBudget(pol) /\ st = "idle" /\ last = "none" /\ hosts = <<>> /\ reply = 0 /\ applied = 0
 
 (* an attempt is handed to a freshly chosen host: with round-robin selection re-run, never the host of the
    attempt before (NHosts > 1) *)
@@ -70,6 +71,8 @@ Attempt == /\ st = "idle"
                 /\ IF att = 0 THEN TRUE ELSE IF "SameHostRetry" \in Defects THEN h = hosts[att] ELSE h # hosts[att]
                 /\ hosts' = Append(hosts, h)
            /\ att' = att + 1 /\ st' = "wait" /\ last' = "none"
+           (* receiveHeaders finalizes the request before the first attempt; a retry sends the same request again *)
+           /\ applied' = IF att = 0 THEN 1 ELSE IF "FinalizeOnRetry" \in Defects THEN applied + 1 ELSE applied
            /\ UNCHANGED <<pol, script, rem, reply>>
 
 (* the attempt ends; retry decision *)
@@ -79,13 +82,13 @@ Ends == /\ st = "wait"
              /\ IF rem > 0 /\ ImplRetryable(pol, o)
                 THEN st' = "idle" /\ rem' = rem - 1 /\ reply' = reply
                 ELSE st' = "replied" /\ rem' = rem /\ reply' = IF o \in Responses THEN Code(o) ELSE 599
-        /\ UNCHANGED <<pol, script, att, hosts>>
+        /\ UNCHANGED <<pol, script, att, hosts, applied>>
 
 (* a response that was passed on may still break: the reply has started, nothing is retried *)
 BreaksAfterStart == /\ st = "replied" /\ last \in Responses
                     /\ IF "RetryAfterResponse" \in Defects /\ rem > 0 THEN st' = "idle" /\ rem' = rem - 1 ELSE st' = "done" /\ rem' = rem
-                    /\ UNCHANGED <<pol, script, att, last, hosts, reply>>
-Finish == st = "replied" /\ st' = "done" /\ UNCHANGED <<pol, script, att, rem, last, hosts, reply>>
+                    /\ UNCHANGED <<pol, script, att, last, hosts, reply, applied>>
+Finish == st = "replied" /\ st' = "done" /\ UNCHANGED <<pol, script, att, rem, last, hosts, reply, applied>>
 
 Next == Attempt \/ Ends \/ BreaksAfterStart \/ Finish
 Spec == Init /\ [][Next]_vars
@@ -97,6 +100,8 @@ RetryOnlyIfConfigured == [][Attempt => (att = 0 \/ (reply = 0 /\ Retryable(pol, 
 FreshHost         == \A i \in 1..(Len(hosts) - 1) : hosts[i] # hosts[i + 1]
 (* exactly: when the conditions hold and budget is left, the retry is made *)
 RetryMade         == (st \in {"replied", "done"} /\ att < 1 + Budget(pol)) => ~Retryable(pol, last)
+(* every attempt, first or retried, carries the request with the actions applied exactly once *)
+ActionsAppliedOnce == att >= 1 => applied = 1
 ReplyIsLast       == st \in {"replied", "done"} => (IF last \in Responses THEN reply = Code(last) ELSE reply >= 500)
 
 (* the expected number of attempts of a behaviour, used by the case stream *)
